@@ -7,7 +7,7 @@ from ..astutil import call_name, calls_in, func_params, norm, stmts_of
 from ..report import RuleDef
 from ..src import AnalysisError
 from ..vg import (App, BoolT, Cmp, Const, Evaluator, ExtRef, Ite, Obj, Tup,
-                  contains_unknown, is_num, same, show, sym, term_equal)
+                  contains_unknown, is_num, same, show, sym, term_equal, truthy)
 from .common import evaluator, method_or_fail
 
 EXPLANATION = (
@@ -97,6 +97,30 @@ def r2(ctx):
     m = ctx.model
     reg = m.cls('Region')
     eq = method_or_fail(ctx, reg, '__eq__')
+    def evalb(t, asg):
+        """truth of the boolean term t under an assignment of its atoms (atoms are keyed by their text)."""
+        if isinstance(t, Const):
+            return bool(t.v)
+        if isinstance(t, BoolT) and t.op == 'and':
+            return all(evalb(a_, asg) for a_ in t.args)
+        if isinstance(t, BoolT) and t.op == 'or':
+            return any(evalb(a_, asg) for a_ in t.args)
+        if isinstance(t, BoolT) and t.op == 'not':
+            return not evalb(t.args[0], asg)
+        if isinstance(t, BoolT) and t.op == 'truthy' and isinstance(t.args[0], (Ite, BoolT, Const, Tup)):
+            return evalb(t.args[0], asg)
+        if isinstance(t, Tup) and t.kind in ('any', 'all'):
+            vs = [evalb(truthy(i), asg) for i in t.items]
+            return any(vs) if t.kind == 'any' else all(vs)
+        if isinstance(t, Ite):
+            return evalb(t.a, asg) if evalb(t.cond, asg) else evalb(t.b, asg)
+        if hasattr(t, 'rets'):
+            for pc_, v_ in t.rets:
+                if all(evalb(truthy(c_), asg) for c_ in pc_):
+                    return evalb(truthy(v_), asg)
+            return False
+        return asg(show(t, 2000))
+
     for ci in m.region_classes():
         ev = evaluator(ctx)
         s = ev.symbolic_instance(ci)
@@ -104,39 +128,60 @@ def r2(ctx):
         o.typed = False
         out = ev.run(eq, [s, o], {})
         construct = f'{ci.name}.__eq__'
-        compared = set()
-        false_rets = [(pc, v) for pc, v in out.returns if isinstance(v, Const) and v.v is False]
-        true_rets = [(pc, v) for pc, v in out.returns if isinstance(v, Const) and v.v is True]
-        for pc, v in false_rets:
-            if not pc:
-                continue
-            last = pc[-1]
-            txt = show(last, 600)
-            for p in list(m.params_of(ci)) + ['meta', 'visual']:
-                a = ev.attr(s, p, None)
-                b = ev.attr(o, p, None)
-                if isinstance(last, BoolT) and last.op == 'truthy' and isinstance(last.args[0], App) \
-                        and last.args[0].name == 'numpy.any':
-                    c = last.args[0].args[0]
-                    if isinstance(c, Cmp) and c.op == '!=' and ((same(c.lhs, a) and same(c.rhs, b)) or
-                                                                 (same(c.lhs, b) and same(c.rhs, a))):
-                        compared.add(p)
-        want = set(m.params_of(ci)) | {'meta', 'visual'}
-        cls_guard = any('isinstance(other' in show(ev.conj(pc), 400) for pc, v in false_rets)
-        if compared == want and cls_guard and len(true_rets) == 1:
-            ctx.ok(construct, f'class checked; compares {sorted(want)}')
+        # the outcomes are a decision list in program order: the first return whose (necessary) path condition holds
+        # decides
+        class _DL:
+            pass
+        E = _DL()
+        E.rets = list(out.returns)
+        want = sorted(set(m.params_of(ci)) | {'meta', 'visual'})
+        fieldtxt = {p: (show(ev.attr(s, p, None), 400), show(ev.attr(o, p, None), 400)) for p in want}
+
+        def assignment(differs=None, guard=True, completes=True):
+            def asg(key):
+                if 'isinstance(other' in key:
+                    return guard
+                if key.startswith('bool(completes_without') or 'completes_without' in key:
+                    return completes
+                for p in want:
+                    a_, b_ = fieldtxt[p]
+                    if f'{a_} != {b_}' in key or f'{b_} != {a_}' in key:
+                        return p == differs
+                    if f'{a_} == {b_}' in key or f'{b_} == {a_}' in key:
+                        return p != differs
+                raise AnalysisError('C16.R2', construct, f'equality depends on something that is not a field comparison: {key[:160]}')
+            return asg
+        probs = []
+        if not evalb(E, assignment()):
+            probs.append('two regions of the same class with equal fields compare unequal')
+        blind = [p for p in want if evalb(E, assignment(differs=p))]
+        if blind:
+            probs.append(f'a difference in {blind} alone leaves the regions equal (fields compared: {sorted(set(want) - set(blind))}, '
+                         f'must compare {want})')
+        if evalb(E, assignment(guard=False)):
+            probs.append('an object of another class can compare equal (no class guard)')
+        if any('completes_without' in show(c_, 400) for pc_, v_ in out.returns for c_ in list(pc_) + [v_]) \
+                and evalb(E, assignment(completes=False)):
+            probs.append('a field comparison that raises (frame or shape mismatch) makes the regions equal')
+        if probs:
+            ctx.bad(construct, 'fields-compared', 'equality does not see every field: ' + '; '.join(probs), eq.loc())
         else:
-            ctx.bad(construct, 'fields-compared',
-                    f'equality does not see every field: compares {sorted(compared)}, must compare {sorted(want)} '
-                    f'(class guard: {cls_guard})', eq.loc())
+            ctx.ok(construct, f'class checked; a difference in any of {want} means unequal; equal fields mean equal')
     # error discipline: comparing two well-formed regions never raises — a frame mismatch (TypeError) or a shape
     # mismatch (ValueError, e.g. polygons with different numbers of vertices) of a SkyCoord/Quantity field means "unequal"
+    # (read off the value: the field comparisons sit under a try whose handlers — all returning a constant — name them)
+    import re as _re
     caught = set()
-    for n in ast.walk(eq.node):
-        if isinstance(n, ast.ExceptHandler):
-            names = [norm(e) for e in n.type.elts] if isinstance(n.type, ast.Tuple) else ([norm(n.type)] if n.type else ['Exception'])
-            if any(isinstance(x, ast.Return) and isinstance(x.value, ast.Constant) and x.value.value is False for x in n.body):
-                caught |= set(names)
+    evx = evaluator(ctx)
+    cix = m.cls('PolygonSkyRegion')
+    ox = Obj(cix.name, {}, 'other', cix)
+    ox.typed = False
+    outx = evx.run(eq, [evx.symbolic_instance(cix), ox], {})
+    alltxt = ' '.join(show(c_, 3000) for pc_, v_ in outx.returns for c_ in list(pc_) + [v_])
+    for mt in _re.finditer(r'completes_without:\(?([A-Za-z_., ]+?)\)?\(', alltxt):
+        caught |= {x.strip().split('.')[-1] for x in mt.group(1).split(',') if x.strip()}
+    if '*' in alltxt and 'completes_without:*' in alltxt:
+        caught.add('Exception')
     need = {'TypeError', 'ValueError'}
     if need <= caught or caught & {'Exception', 'BaseException'}:
         ctx.ok('Region.__eq__:exceptions', 'TypeError and ValueError of field comparisons mean unequal')
@@ -214,35 +259,39 @@ def r4(ctx):
 
 
 def r5(ctx):
+    """Regions.copy() and slicing hand back a new Regions object whose list is a new list object (a copy or a slice of
+    the source list), never the source list itself — decided on the value of the returned object's `regions` field."""
     m = ctx.model
     ci = m.cls('Regions')
-    for name in ('copy', '__getitem__'):
+    for name, args in (('copy', []), ('__getitem__', [Obj('slice', {}, 'index')])):
         f = method_or_fail(ctx, ci, name)
+        ev = evaluator(ctx)
+        src = Obj('list', {}, 'self.regions')
+        s = Obj('Regions', {'regions': src}, 'self', ci)
+        out = ev.run(f, [s] + args, {})
+        objs = [v for _, v in out.returns if isinstance(v, Obj) and v.cls == 'Regions']
+        if name == '__getitem__':
+            # one item (a Region) is handed out as it is; the list case is the other return
+            objs = [v for pc, v in out.returns if isinstance(v, Obj) and v.cls == 'Regions']
+            if not objs:
+                for pc, v in out.returns:
+                    for x in ([v.a, v.b] if isinstance(v, Ite) else [v]):
+                        if isinstance(x, Obj) and x.cls == 'Regions':
+                            objs.append(x)
         probs = []
-        found = False
-        srcs = {}
-        for st in stmts_of(f.node):
-            if isinstance(st, ast.Assign) and isinstance(st.targets[0], ast.Name):
-                srcs[st.targets[0].id] = st.value
-            if isinstance(st, ast.Assign) and isinstance(st.targets[0], ast.Attribute) and st.targets[0].attr == 'regions' \
-                    and norm(st.targets[0].value) != 'self':
-                found = True
-                v = st.value
-                if isinstance(v, ast.Name) and v.id in srcs:
-                    v = srcs[v.id]
-                fresh = (isinstance(v, ast.Call) and (norm(v.func) in ('self.regions.copy', 'list', 'copy.copy')
-                                                       or norm(v.func).endswith('.copy'))) or \
-                    (isinstance(v, ast.Subscript) and norm(v.value) == 'self.regions') or \
-                    isinstance(v, (ast.List, ast.ListComp))
-                if not fresh:
-                    probs.append(f'`{norm(st)}` binds the source list itself')
-        if not found:
+        if not objs:
             probs.append('no new Regions object is populated')
+        for r in objs:
+            lst = r.fields.get('regions')
+            if r is s:
+                probs.append('the object itself is returned')
+            elif lst is None or lst is src or same(lst, src):
+                probs.append(f'the new object holds `{show(lst, 80)}`, the source list itself')
         if probs:
             ctx.bad(f'Regions.{name}', 'aliases-list', '; '.join(probs) + ': later edits of the result alter the source list',
                     f.loc())
         else:
-            ctx.ok(f'Regions.{name}', 'binds a new list object')
+            ctx.ok(f'Regions.{name}', f'binds a new list object ({show(objs[0].fields.get("regions"), 60)})')
 
 
 def _copy_stable(m, mod, expr):
